@@ -720,3 +720,71 @@ def material(f):
         if ch.lower() in WORTH:
             t += WORTH[ch.lower()] if ch.isupper() else -WORTH[ch.lower()]
     return t
+
+# ------------------------------------------------------------------ C12
+def check_C12(chk, binp):
+    quick = chk.tier == 'quick'
+    rnd = random.Random(chk.seed)
+    pos = G.positions(chk.seed, chk.tier, 'C12', n_playouts=24 if quick else 300, n_small=120 if quick else 3000)
+    if quick:
+        pos = pos[:60] + rnd.sample(pos[60:], min(len(pos) - 60, 500))
+    sc = run_cases(MODEL, ['sancases\t' + f for f in pos], 'C12-cases')
+    cases = []; expect = []
+    kinds = {'positive': 0, 'negative': 0, 'with-disambiguation': 0, 'promotion-suffix': 0, 'castle': 0, 'check-mark': 0}
+    for f, r in zip(pos, sc):
+        if not r or r == 'badfen':
+            continue
+        for item in r.split(' '):
+            if '>' not in item:
+                continue
+            sp, mv = item.rsplit('>', 1)
+            cases.append('san\t%s\t%s' % (f, G.esc(sp)))
+            expect.append('ok ' + mv)
+            if mv == '':
+                kinds['negative'] += 1
+            else:
+                kinds['positive'] += 1
+                if sp.startswith('O-O'): kinds['castle'] += 1
+                if '=' in sp or sp.rstrip('+#')[-1:] in 'QRBN': kinds['promotion-suffix'] += 1
+                if sp.endswith('+') or sp.endswith('#'): kinds['check-mark'] += 1
+                core = sp.rstrip('+#')
+                if len(core) >= 4 and core[0] in 'NBRQK' and not core.startswith('O'):
+                    body = core[1:].replace('x', '')
+                    if len(body) > 2: kinds['with-disambiguation'] += 1
+    impl = run_cases(binp, cases, 'C12-impl')
+    model = run_cases(MODEL, cases, 'C12-model')
+    bm = stream(chk, 'SAN text -> set of legal moves matched', cases, impl, model, 'extracted implementation model (san_parse + qtest over gen_legal)')
+    bs = [i for i, (a, e) in enumerate(zip(impl, expect)) if a != e]
+    chk.streams.append({'name': 'every admissible spelling selects exactly its move; illegal long forms select none', 'against': 'extracted SanSpec.spellings / Rules', 'cases': len(cases), 'disagreements': len(bs)})
+    lc = ['lan\t' + f for f in pos]
+    li = run_cases(binp, lc, 'C12-lan-impl')
+    lm = run_cases(MODEL, lc, 'C12-lan-model')
+    bl = stream(chk, 'coordinate text of every legal move and what it selects again', lc, li, lm, 'extracted implementation model (lan_write, uci_move_query, resolve)')
+    lanbad = []
+    files = 'abcdefgh'
+    for i, r in enumerate(li):
+        if r is None or r in ('badfen', 'panic'):
+            lanbad.append((i, str(r))); continue
+        if r == '':
+            continue
+        for it in r.split(';'):
+            mv, text, same = it.split('>')
+            o, d, p = [int(x) for x in mv.split('/')]
+            exp = files[o % 8] + str(o // 8 + 1) + files[d % 8] + str(d // 8 + 1) + {0: '', 2: 'n', 3: 'b', 4: 'r', 5: 'q'}[p]
+            if text != exp or same != '1':
+                lanbad.append((i, it)); break
+    chk.streams.append({'name': 'LAN = origin+destination+lower-case promotion letter and selects the same move again', 'against': 'coordinate text computed by the checker', 'cases': len(lc), 'disagreements': len(lanbad)})
+    chk.extra['spelling_kinds'] = kinds
+    for c in cases:
+        chk.distinct.add(c)
+    chk.rule = 'for each position (corpus, spec playouts, small families): every legal move x every admissible spelling produced by the independent writer SanSpec.spellings, and the fully qualified spelling of every pseudo-legal but illegal move as negative case'
+    chk.samples += [{'case': cases[i], 'expected': expect[i], 'code': impl[i]} for i in (0, len(cases) // 3, len(cases) - 1) if cases]
+    for i in bs[:3]:
+        chk.violation('SAN %s: code matched %s, expected %s' % (cases[i].split('\t', 1)[1], impl[i], expect[i]), {'kind': 'input', 'case': cases[i], 'code': impl[i], 'expected': expect[i]}, found_input=True)
+    for i, it in lanbad[:3]:
+        chk.violation('coordinate notation wrong on %s: %s' % (pos[i], it), {'kind': 'input', 'fen': pos[i], 'item': it}, found_input=True)
+    if not bs and not lanbad:
+        for i in bm[:2]:
+            chk.violation('correspondence broken (san) on %s: code %s model %s' % (cases[i], impl[i], model[i]), {'kind': 'correspondence', 'case': cases[i]}, found_input=False)
+        for i in bl[:2]:
+            chk.violation('correspondence broken (lan) on %s' % lc[i], {'kind': 'correspondence', 'case': lc[i]}, found_input=False)
